@@ -9,8 +9,11 @@ import SqlDt.Props.C12
 import SqlDt.Props.C13
 import SqlDt.Props.C14
 import SqlDt.Props.C16
+import SqlDt.Props.C09
+import SqlDt.Props.C10
+import SqlDt.Props.C11
 namespace SqlDt.C02
-open SqlDt Gen
+open SqlDt Gen Spec
 
 /-- Anything a gate `if Valid x then ok x else err` returns is valid. -/
 theorem gate_valid {P : Int → Prop} [DecidablePred P] {e : Err} {x v : Int}
@@ -115,6 +118,236 @@ theorem od_addIntervalDt (od i r : Int) (h : OracleDate.addIntervalDt od i = .ok
   | ok ts =>
     rw [hts] at h; cases h
     exact C16.fromTimestamp_valid ts (ts_addIntervalDt od i ts hts)
+
+/-! ### Calendar operations: truncation, rounding, last day of month, adding months — Date, Timestamp, OracleDate -/
+
+/-- Every valid day number is the ordinal of a real date of years 1..9999. -/
+theorem date_decompose (d : Int) (hd : isValidDate d) : ∃ y m dd, ValidYMD y m dd ∧ dayNumber y m dd = d := by
+  obtain ⟨hv, hb⟩ := Lemmas.extract_roundtrip d hd
+  refine ⟨_, _, _, hv, ?_⟩
+  rw [← Lemmas.fromYmd_eq_dayNumber _ _ _ ⟨by have := hv.1; omega, by have := hv.2.1; omega⟩ ⟨hv.2.2.1, hv.2.2.2.1⟩]
+  exact hb
+
+theorem inRangeDay_valid (b v : Int) (h : inRangeDay b = .ok v) : isValidDate v := by
+  unfold inRangeDay MIN_DAY MAX_DAY at h
+  split at h
+  · cases h; exact (isValidDate_iff _).2 (by assumption)
+  · cases h
+
+/-- Whatever a date constructor from (y, m, d) accepts is a valid date. -/
+theorem date_tryFromYmd (y m d v : Int) (hm : 0 ≤ m) (hd : 0 ≤ d) (h : Date.tryFromYmd y m d = .ok v) : isValidDate v := by
+  have hv := (C01.tryFromYmd_ok_iff y m d hm hd).1 ⟨v, h⟩
+  obtain ⟨h1, h2, _⟩ := C01.tryFromYmd_roundtrip y m d hv
+  rw [h1] at h; cases h; exact h2
+
+theorem date_trunc (u : TUnit) (d v : Int) (hd : isValidDate d) (h : Date.trunc u d = .ok v) : isValidDate v := by
+  obtain ⟨y, m, dd, hv, rfl⟩ := date_decompose d hd
+  rw [Lemmas.date_trunc_eq u y m dd hv] at h
+  exact inRangeDay_valid _ _ h
+
+theorem date_round (u : TUnit) (d v : Int) (hd : isValidDate d) (h : Date.round u d = .ok v) : isValidDate v := by
+  obtain ⟨y, m, dd, hv, rfl⟩ := date_decompose d hd
+  by_cases hD1 : u = .century → y % 100 ≠ 0
+  · rw [Lemmas.date_round_eq u y m dd hv hD1] at h
+    exact inRangeDay_valid _ _ h
+  · have hu : u = .century := by
+      by_cases hu : u = .century
+      · exact hu
+      · exact absurd (fun h' => absurd h' hu) hD1
+    have hy : y % 100 = 0 := by
+      by_cases hy : y % 100 = 0
+      · exact hy
+      · exact absurd (fun _ => hy) hD1
+    subst hu
+    have y9 : y ≤ 9900 := by have := hv.2.1; omega
+    rw [(Lemmas.date_round_century_dev y m dd hv hy y9).1] at h
+    cases h
+    have : ValidYMD (y - 99) 1 1 := ⟨by have := hv.1; omega, by omega, by decide, by decide, by decide, by
+      unfold dim; simp⟩
+    exact (isValidDate_iff _).2 (Lemmas.dayNumber_range _ _ _ this)
+
+theorem date_lastDay (d : Int) (hd : isValidDate d) : isValidDate (Date.lastDayOfMonth d) := by
+  obtain ⟨y, m, dd, hv, rfl⟩ := date_decompose d hd
+  obtain ⟨h1, h2⟩ := C09.lastDayOfMonth_spec y m dd hv
+  rw [h1]; exact (isValidDate_iff _).2 (Lemmas.dayNumber_range _ _ _ h2)
+
+theorem date_addMonths (d k v : Int) (hd : isValidDate d) (h : Date.addIntervalYmInternal d k = .ok v) : isValidDate v := by
+  obtain ⟨y, m, dd, hv, rfl⟩ := date_decompose d hd
+  rw [C09.addMonths_spec y m dd k hv] at h
+  split at h; · cases h
+  split at h; · cases h
+  cases h
+  rename_i c1 c2
+  have : ValidYMD (C09.targetYear y m k) (C09.targetMonth y m k) dd := by
+    refine ⟨by omega, by omega, ?_, ?_, hv.2.2.2.2.1, by omega⟩ <;> (unfold C09.targetMonth; omega)
+  exact (isValidDate_iff _).2 (Lemmas.dayNumber_range _ _ _ this)
+
+theorem ts_decompose (x : Int) (hx : isValidTimestamp x) :
+    ∃ y m dd, ValidYMD y m dd ∧ dayNumber y m dd = x / 86400000000 := by
+  have := (isValidTimestamp_iff x).1 hx
+  exact date_decompose _ ((isValidDate_iff _).2 (by omega))
+
+theorem midnight_valid (b v : Int) (h : (inRangeDay b).map (· * DAY_US) = .ok v) : isValidTimestamp v := by
+  unfold inRangeDay MIN_DAY MAX_DAY DAY_US at h
+  split at h
+  · simp [Except.map] at h; subst h
+    rw [isValidTimestamp_iff]; omega
+  · simp [Except.map] at h
+
+theorem ts_trunc (u : TUnit) (x v : Int) (hx : isValidTimestamp x) (h : Timestamp.trunc u x = .ok v) :
+    isValidTimestamp v := by
+  obtain ⟨y, m, dd, hv, hd⟩ := ts_decompose x hx
+  have hr := (isValidTimestamp_iff x).1 hx
+  rw [Lemmas.ts_trunc_eq u x hx y m dd hv hd] at h
+  cases u <;> simp only [truncTsOf] at h <;>
+    first
+    | exact midnight_valid _ _ h
+    | (cases h; rw [isValidTimestamp_iff]; omega)
+
+theorem new_valid' (d t : Int) (hd : isValidDate d) (ht : 0 ≤ t ∧ t < 86400000000) : isValidTimestamp (Timestamp.new d t) :=
+  C07.new_valid d t hd ((isValidTime_iff t).2 ht)
+
+theorem ts_date_valid (x : Int) (hx : isValidTimestamp x) : isValidDate (Timestamp.date x) := by
+  have := (isValidTimestamp_iff x).1 hx
+  rw [Timestamp.date_eq, isValidDate_iff]; omega
+
+theorem shift_valid (x d : Int) (hx : isValidTimestamp x) (h : Timestamp.shiftHalfDay x = .ok d) : isValidDate d := by
+  unfold Timestamp.shiftHalfDay at h
+  rw [Timestamp.extract_eq] at h
+  simp only [] at h
+  have hr := (isValidTimestamp_iff x).1 hx
+  split at h
+  · exact date_addDays _ _ _ h
+  · cases h; rw [isValidDate_iff]; omega
+
+/-- Whatever `Timestamp::round_*` returns is a valid timestamp (all twelve units). -/
+theorem ts_round (u : TUnit) (x v : Int) (hx : isValidTimestamp x) (h : Timestamp.round u x = .ok v) :
+    isValidTimestamp v := by
+  have hdv := ts_date_valid x hx
+  have key : ∀ (r : Chk Int) (t : Int), (0 ≤ t ∧ t < 86400000000) → (∀ d, r = .ok d → isValidDate d) →
+      (r.bind fun d => .ok (Timestamp.new d t)) = .ok v → isValidTimestamp v := by
+    intro r t ht hr hb
+    cases r with
+    | error e => simp [Except.bind] at hb
+    | ok d => simp [Except.bind] at hb; subst hb; exact new_valid' d t (hr d rfl) ht
+  have hdr : ∀ (w : TUnit) (d0 d : Int), isValidDate d0 → Date.round w d0 = .ok d → isValidDate d :=
+    fun w d0 d h0 h1 => date_round w d0 d h0 h1
+  have ht0 : (0:Int) ≤ 0 ∧ (0:Int) < 86400000000 := by omega
+  cases u
+  case week =>
+    simp only [Timestamp.round, bind] at h
+    cases hs : Timestamp.shiftHalfDay x with
+    | error e => simp [hs, Except.bind] at h
+    | ok d0 =>
+      simp only [hs, Except.bind] at h
+      exact key (Date.roundWeekInternal d0 (Date.extract d0).1) 0 ht0
+        (fun d hd => hdr .week d0 d (shift_valid x d0 hx hs) hd) (by simpa [Except.bind, pure, Except.pure] using h)
+  case isoWeek =>
+    simp only [Timestamp.round, bind] at h
+    cases hs : Timestamp.shiftHalfDay x with
+    | error e => simp [hs, Except.bind] at h
+    | ok d0 =>
+      simp only [hs, Except.bind] at h
+      exact key (Date.roundIsoWeek d0) 0 ht0
+        (fun d hd => hdr .isoWeek d0 d (shift_valid x d0 hx hs) hd) (by simpa [Except.bind, pure, Except.pure] using h)
+  case monthStartWeek =>
+    simp only [Timestamp.round, bind] at h
+    cases hs : Timestamp.shiftHalfDay x with
+    | error e => simp [hs, Except.bind] at h
+    | ok d0 =>
+      simp only [hs, Except.bind] at h
+      exact key (Date.roundMonthStartWeekInternal d0 (Date.extract d0).2.2) 0 ht0
+        (fun d hd => hdr .monthStartWeek d0 d (shift_valid x d0 hx hs) hd) (by simpa [Except.bind, pure, Except.pure] using h)
+  case sundayStartWeek =>
+    simp only [Timestamp.round, bind] at h
+    cases hs : Timestamp.shiftHalfDay x with
+    | error e => simp [hs, Except.bind] at h
+    | ok d0 =>
+      simp only [hs, Except.bind] at h
+      exact key (Date.roundSundayStartWeek d0) 0 ht0
+        (fun d hd => hdr .sundayStartWeek d0 d (shift_valid x d0 hx hs) hd) (by simpa [Except.bind, pure, Except.pure] using h)
+  case day =>
+    simp only [Timestamp.round, bind, pure, Except.pure] at h
+    split at h
+    · exact key (Date.addDays (Timestamp.date x) 1) 0 ht0 (fun d hd => date_addDays _ _ _ hd)
+        (by simpa [Except.bind] using h)
+    · simp only [Except.bind] at h; cases h; exact new_valid' _ 0 hdv ht0
+  case hour =>
+    have hr := (isValidTimestamp_iff x).1 hx
+    have htm : 0 ≤ x % 86400000000 := by omega
+    simp only [Timestamp.round, bind, pure, Except.pure, Timestamp.time_eq, Time.extract_eq _ htm] at h
+    have hfh : ∀ hh : Int, 0 ≤ hh → hh ≤ 23 → 0 ≤ Time.fromHmsUnchecked hh 0 0 0 ∧ Time.fromHmsUnchecked hh 0 0 0 < 86400000000 := by
+      intro hh h0 h1; unfold Time.fromHmsUnchecked USECONDS_PER_HOUR USECONDS_PER_MINUTE USECONDS_PER_SECOND; omega
+    split at h
+    · split at h
+      · exact key (Date.addDays (Timestamp.date x) 1) _ (hfh 0 (by omega) (by omega)) (fun d hd => date_addDays _ _ _ hd)
+          (by simpa [Except.bind] using h)
+      · cases h
+        exact new_valid' _ _ hdv (hfh _ (by omega) (by omega))
+    · cases h
+      exact new_valid' _ _ hdv (hfh _ (by omega) (by omega))
+  case minute =>
+    have hr := (isValidTimestamp_iff x).1 hx
+    have htm : 0 ≤ x % 86400000000 := by omega
+    simp only [Timestamp.round, bind, pure, Except.pure, Timestamp.time_eq, Time.extract_eq _ htm] at h
+    have hfh : ∀ hh mm : Int, 0 ≤ hh → hh ≤ 23 → 0 ≤ mm → mm ≤ 59 →
+        0 ≤ Time.fromHmsUnchecked hh mm 0 0 ∧ Time.fromHmsUnchecked hh mm 0 0 < 86400000000 := by
+      intro hh mm h0 h1 m0 m1; unfold Time.fromHmsUnchecked USECONDS_PER_HOUR USECONDS_PER_MINUTE USECONDS_PER_SECOND; omega
+    split at h
+    · split at h
+      · split at h
+        · exact key (Date.addDays (Timestamp.date x) 1) _ (hfh 0 0 (by omega) (by omega) (by omega) (by omega))
+            (fun d hd => date_addDays _ _ _ hd) (by simpa [Except.bind] using h)
+        · cases h
+          exact new_valid' _ _ hdv (hfh _ 0 (by omega) (by omega) (by omega) (by omega))
+      · cases h
+        exact new_valid' _ _ hdv (hfh _ _ (by omega) (by omega) (by omega) (by omega))
+    · cases h
+      exact new_valid' _ _ hdv (hfh _ _ (by omega) (by omega) (by omega) (by omega))
+  all_goals
+    (simp only [Timestamp.round, bind] at h
+     exact key (Date.round _ (Timestamp.date x)) 0 ht0 (fun d hd => hdr _ _ d hdv hd)
+       (by simpa [Except.bind, pure, Except.pure] using h))
+
+theorem ts_lastDay (x : Int) (hx : isValidTimestamp x) : isValidTimestamp (Timestamp.lastDayOfMonth x) := by
+  obtain ⟨y, m, dd, hv, hd⟩ := ts_decompose x hx
+  rw [C09.ts_lastDayOfMonth_spec x y m dd hv hd]
+  obtain ⟨_, h2⟩ := C09.lastDayOfMonth_spec y m dd hv
+  have := Lemmas.dayNumber_range _ _ _ h2
+  rw [isValidTimestamp_iff]; omega
+
+theorem ts_addMonths (x k v : Int) (hx : isValidTimestamp x) (h : Timestamp.addIntervalYm x k = .ok v) :
+    isValidTimestamp v := by
+  rw [C09.ts_addIntervalYm_eq] at h
+  have hr := (isValidTimestamp_iff x).1 hx
+  cases hd : Date.addIntervalYmInternal (x / 86400000000) k with
+  | error e => simp [hd, Except.map] at h
+  | ok d =>
+    simp [hd, Except.map] at h; subst h
+    exact new_valid' d _ (date_addMonths _ k d ((isValidDate_iff _).2 (by omega)) hd) (by omega)
+
+/-- Oracle-style dates: every operation is the timestamp operation followed by the floor to the second. -/
+theorem od_of_ts (r : Chk Int) (v : Int) (hr : ∀ t, r = .ok t → isValidTimestamp t)
+    (h : (r.bind fun t => .ok (OracleDate.fromTimestamp t)) = .ok v) : OracleDate.isValidDate v := by
+  cases r with
+  | error e => simp [Except.bind] at h
+  | ok t => simp [Except.bind] at h; subst h; exact C16.fromTimestamp_valid t (hr t rfl)
+
+theorem od_trunc (u : TUnit) (x v : Int) (hx : OracleDate.isValidDate x) (h : OracleDate.trunc u x = .ok v) :
+    OracleDate.isValidDate v :=
+  od_of_ts (Timestamp.trunc u x) v (fun t ht => ts_trunc u x t hx.1 ht) h
+
+theorem od_round (u : TUnit) (x v : Int) (hx : OracleDate.isValidDate x) (h : OracleDate.round u x = .ok v) :
+    OracleDate.isValidDate v :=
+  od_of_ts (Timestamp.round u x) v (fun t ht => ts_round u x t hx.1 ht) h
+
+theorem od_addMonths (x k v : Int) (hx : OracleDate.isValidDate x) (h : OracleDate.addIntervalYm x k = .ok v) :
+    OracleDate.isValidDate v :=
+  od_of_ts (Timestamp.addIntervalYm x k) v (fun t ht => ts_addMonths x k t hx.1 ht) h
+
+theorem od_lastDay (x : Int) (hx : OracleDate.isValidDate x) : OracleDate.isValidDate (OracleDate.lastDayOfMonth x) :=
+  C16.fromTimestamp_valid _ (ts_lastDay x hx.1)
+
 
 /-- Out-of-range results are errors, never wrapped or clamped: the exact-result theorems of C08 say that an
     operation returns `ok` only with the exact mathematical result. E.g. one day past the maximum: -/
